@@ -306,8 +306,14 @@ def _list_append(ex, st, self, args, kwargs, node):
         j = z3.Int(fresh_name("j"))
         st.assume(r == new.e)
         st.assume(z3.Length(r) == n + 1)
-        st.assume(r[n] == ex.to_elem(v, self.elem_ty))
+        xn = ex.to_elem(v, self.elem_ty)
+        st.assume(r[n] == xn)
         st.assume(z3.ForAll([j], z3.Implies(z3.And(0 <= j, j < n), r[j] == self.e[j])))
+        # membership facts the sequence solver is slow to derive from the Concat term
+        x = z3.Const(fresh_name("x"), xn.sort())
+        st.assume(z3.Contains(r, z3.Unit(xn)))
+        st.assume(z3.ForAll([x], z3.Implies(z3.Contains(self.e, z3.Unit(x)), z3.Contains(r, z3.Unit(x)))))
+        st.assume(z3.ForAll([x], z3.Implies(z3.Contains(r, z3.Unit(x)), z3.Or(x == xn, z3.Contains(self.e, z3.Unit(x))))))
         new = VList(new.elem_ty, r)
     ex.mutate(node, st, new)
     return VNone()
